@@ -1,7 +1,14 @@
 package checks
 
 import (
+	"context"
 	"fmt"
+	"github.com/bartossh/Computantis/src/gossip"
+	"github.com/bartossh/Computantis/src/protobufcompiled"
+	"github.com/bartossh/Computantis/src/transaction"
+	"github.com/bartossh/Computantis/src/transformers"
+	"time"
+	"verifharness/svc"
 
 	"github.com/bartossh/Computantis/src/spice"
 
@@ -94,7 +101,118 @@ func c02Worker(w *core.WorkerCtx) {
 	c02Truncation(w)
 }
 
+// c06Notary: the balance a wallet owner is told through the node's API (notary Balance, which memorises answers)
+// equals the ledger's own answer after every kind of change: a transfer sealed on proposal, a contract with spice
+// confirmed or rejected by its receiver, a vertex that arrived by gossip. Both wallets of the transaction are asked
+// before the change (so that an answer is memorised) and after it; the invalidation runs in goroutines of the node,
+// so the comparison polls (bounded) and only a value that stays wrong is a violation.
+func c06Notary(w *core.WorkerCtx) {
+	r := w.R
+	rng := core.Rand(w.Seed, "C06notary", w.Batch)
+	rig, err := svc.New(4, 60, 2048)
+	if err != nil {
+		r.Inconc("cannot build the node: " + err.Error())
+		return
+	}
+	defer rig.Close()
+	ctx := context.Background()
+	u := rig.Users
+	ask := func(a *ledger.Actor) (string, bool) {
+		rig.Flash.RemoveAddress(a.Addr)
+		sp, err := rig.Notary.Balance(ctx, svc.Sign(a, []byte(a.Addr)))
+		if err != nil {
+			return "error", false
+		}
+		return ledger.MelStr(spice.Melange{Currency: sp.Currency, SupplementaryCurrency: sp.SupplementaryCurrency}), true
+	}
+	ledgerSays := func(a *ledger.Actor) (string, bool) {
+		b, err := rig.Book.CalculateBalance(ctx, a.Addr)
+		if err != nil {
+			return "error", false
+		}
+		return ledger.MelStr(b.Spice), true
+	}
+	propose := func(t transaction.Transaction) error {
+		p, err := transformers.TrxToProtoTrx(t)
+		if err != nil {
+			return err
+		}
+		_, err = rig.Notary.Propose(ctx, p)
+		return err
+	}
+	// funding
+	for i := 1; i < len(u); i++ {
+		propose(ledger.ForgeTrx(u[0], u[i].Addr, fmt.Sprintf("fund %d", i), nil, spice.Melange{Currency: 1000}, time.Now().Add(-time.Minute)))
+	}
+	ops := w.Pick(24, 300)
+	for i := 0; i < ops; i++ {
+		a, b := u[rng.Intn(len(u))], u[rng.Intn(len(u))]
+		if a == b {
+			continue
+		}
+		amt := spice.Melange{Currency: uint64(rng.Intn(3)), SupplementaryCurrency: uint64(1 + rng.Intn(1000))}
+		kind := []string{"transfer", "contract-confirmed", "contract-rejected", "gossiped-vertex"}[i%4]
+		w.Mark("c06 notary op %d %s", i, kind)
+		// memorise both answers
+		ask(a)
+		ask(b)
+		time.Sleep(2 * time.Millisecond) // the node stores the memorised answer in a goroutine
+		var opErr error
+		switch kind {
+		case "transfer":
+			opErr = propose(ledger.ForgeTrx(a, b.Addr, fmt.Sprintf("t %d", i), nil, amt, time.Now().Add(-time.Minute)))
+		case "contract-confirmed", "contract-rejected":
+			t := ledger.ForgeTrx(a, b.Addr, fmt.Sprintf("c %d", i), []byte("contract with spice"), amt, time.Now().Add(-time.Minute))
+			if opErr = propose(t); opErr == nil {
+				if kind == "contract-confirmed" {
+					ledger.CounterSign(&t, b)
+					p, _ := transformers.TrxToProtoTrx(t)
+					_, opErr = rig.Notary.Confirm(ctx, p)
+				} else {
+					_, opErr = rig.Notary.Reject(ctx, svc.Sign(b, t.Hash[:]))
+				}
+			}
+		default:
+			s, _ := ledger.TakeSnap(rig.Book)
+			var tip ledger.H
+			var wgt uint64
+			for h := range s.Leaves {
+				tip, wgt = h, s.Live[h].V.Weight
+			}
+			t := ledger.ForgeTrx(a, b.Addr, fmt.Sprintf("g %d", i), nil, amt, time.Now().Add(-time.Minute))
+			v := ledger.ForgeVertex(rig.PeerAct[i%2], t, tip, tip, wgt+1, time.Now().Add(-time.Second))
+			_, opErr = rig.Gossip.GossipVrx(ctx, &protobufcompiled.VrxMsgGossip{Vertex: gossip.VerifVertexToProtoVertex(&v)})
+		}
+		// a follow-up so that the vertex is confirmed and the ledger has one tip again
+		propose(ledger.ForgeTrx(u[0], u[1].Addr, fmt.Sprintf("follow %d", i), []byte("f"), spice.Melange{}, time.Now().Add(-time.Minute)))
+		if s, err := ledger.TakeSnap(rig.Book); err != nil || len(s.Leaves) != 1 {
+			continue
+		}
+		for ri, who := range []*ledger.Actor{a, b} {
+			role := []string{"issuer", "receiver"}[ri]
+			want, wok := ledgerSays(who)
+			got, gok := "", false
+			for try := 0; try < 400; try++ {
+				got, gok = ask(who)
+				if got == want && gok == wok {
+					break
+				}
+				time.Sleep(5 * time.Millisecond)
+			}
+			r.Eval(1)
+			r.Count("c06_notary_balance_comparisons", 1)
+			r.Nontriv(fmt.Sprintf("notary-balance/%s/%s/op-ok=%v", kind, role, opErr == nil))
+			if got != want || gok != wok {
+				r.Violate("C06", "notary-balance-stale/"+kind+"/"+role, fmt.Sprintf("after a %s (result %v) the node keeps answering the %s's balance query with %s; its ledger computes %s", kind, opErr, role, got, want), nil)
+			}
+		}
+	}
+}
+
 func c06Worker(w *core.WorkerCtx) {
+	if w.Batch == 1 {
+		c06Notary(w)
+	}
 	n := w.Pick(12, 60)
 	runRandomScenarios(w, []string{"C06"}, n, func(p *ledger.Profile) {
 		p.PSelf = 0.15
